@@ -836,7 +836,12 @@ impl TcpSession {
                 self.connection_attempt = 0;
                 self.set_back_connected(BackendConnectionStatus::Connected);
             }
-        } else if back_connected == BackendConnectionStatus::NotConnected {
+        } else if back_connected == BackendConnectionStatus::NotConnected
+            && !matches!(self.state, TcpStateMachine::ExpectProxyProtocol(_))
+        {
+            // While the incoming PROXY header is still awaited there is no
+            // slot for a backend socket (`set_back_socket` panics in that
+            // state): connect once the session has been upgraded to a pipe.
             let connection_result = self.connect_to_backend(session.clone());
             if let Err(err) = &connection_result {
                 match err {
